@@ -270,7 +270,34 @@ def factory_table(sp, rng):
         yield 'proximal_convex_conj_kl(%s,g)' % lt, P.proximal_convex_conj_kl(sp, lam, gp), (lam * S.KullbackLeibler(sp, gp)).convex_conj, False, ('klcc',)
         yield 'proximal_convex_conj_kl(%s)' % lt, P.proximal_convex_conj_kl(sp, lam), (lam * S.KullbackLeibler(sp)).convex_conj, False, ('klcc',)
     yield 'proximal_box_constraint(element-bounds)', P.proximal_box_constraint(sp, -0.3 * sp.one(), 0.5 * sp.one()), S.IndicatorBox(sp, -0.3, 0.5), False, ('indicator',)
+    # every documented kind of bound: scalars, elements, array-likes the space converts, one side only, mixed kinds
+    if not isinstance(sp, odl.ProductSpace):
+        lo = rng.uniform(-0.6, -0.1, size=sp.shape)
+        hi = rng.uniform(0.2, 0.7, size=sp.shape)
+        yield 'proximal_box_constraint(ndarray-bounds)', P.proximal_box_constraint(sp, lo.copy(), hi.copy()), S.IndicatorBox(sp, sp.element(lo), sp.element(hi)), False, ('indicator',)
+        yield 'proximal_box_constraint(list-bounds)', P.proximal_box_constraint(sp, lo.tolist(), hi.tolist()), S.IndicatorBox(sp, sp.element(lo), sp.element(hi)), False, ('indicator',)
+        yield 'proximal_box_constraint(scalar-lower,ndarray-upper)', P.proximal_box_constraint(sp, -0.4, hi.copy()), S.IndicatorBox(sp, -0.4, sp.element(hi)), False, ('indicator',)
+        yield 'proximal_box_constraint(list-lower,scalar-upper)', P.proximal_box_constraint(sp, lo.tolist(), 0.6), S.IndicatorBox(sp, sp.element(lo), 0.6), False, ('indicator',)
+        yield 'proximal_box_constraint(ndarray-upper-only)', P.proximal_box_constraint(sp, upper=hi.copy()), S.IndicatorBox(sp, None, sp.element(hi)), False, ('indicator',)
+        yield 'proximal_box_constraint(list-lower-only)', P.proximal_box_constraint(sp, lower=lo.tolist()), S.IndicatorBox(sp, sp.element(lo), None), False, ('indicator',)
+    yield 'proximal_box_constraint(scalar-bounds)', P.proximal_box_constraint(sp, -0.3, 0.5), S.IndicatorBox(sp, -0.3, 0.5), False, ('indicator',)
+    yield 'proximal_box_constraint(lower-only)', P.proximal_box_constraint(sp, lower=-0.3), S.IndicatorBox(sp, -0.3, None), False, ('indicator',)
+    yield 'proximal_box_constraint(upper-only)', P.proximal_box_constraint(sp, upper=0.5), S.IndicatorBox(sp, None, 0.5), False, ('indicator',)
     yield 'proximal_huber', P.proximal_huber(sp, 0.3), S.Huber(sp, 0.3), False, ('c1',)
+
+
+def _guarded_table(ctx, sp, rng):
+    """factory_table, with a factory that refuses documented arguments reported instead of ending the run."""
+    it = factory_table(sp, rng)
+    while True:
+        try:
+            yield next(it)
+        except StopIteration:
+            return
+        except Exception as e:
+            ctx.ev('finite-at-prox')
+            ctx.violation('factory-table', util.space_tag(sp), 'factory-raises:' + type(e).__name__, message=str(e)[:200])
+            return
 
 
 def run_factories(ctx, i0):
@@ -279,7 +306,7 @@ def run_factories(ctx, i0):
     for sname, sp in functab.spaces():
         if 'aw' in sname:
             continue      # (array weights: the library functionals used as value oracle raise for Huber; covered via the functionals)
-        for fname, fac, f, elem_sigma, tags in factory_table(sp, ctx.crng('factory-ctor', sname)):
+        for fname, fac, f, elem_sigma, tags in _guarded_table(ctx, sp, ctx.crng('factory-ctor', sname)):
             i += 1
             if not ctx.mine(i):
                 continue
